@@ -191,7 +191,14 @@ func c08(env *core.Env, kind string, immutable bool) {
 	}
 	uploads := !http && c.Bool("uploads", 1, 2)
 	var uploadID string
-	if uploads {
+	if uploads && c.Bool("upload.fresh-id", 1, 2) {
+		// the session does not exist yet: the first tasks to resume it create it (ocimem
+		// accepts a caller-chosen id), possibly at the same time
+		uploadID = "verif-session-1"
+		m0.Uploads[0] = &reg.MUpload{Repo: pools.repos[0], Check: -1}
+		m0.Named[pools.repos[0]] = true
+		env.Probe("c08:upload-session-created-by-tasks")
+	} else if uploads {
 		w, err := mem.PushBlobChunked(ctx, pools.repos[0], 0)
 		if err != nil {
 			core.Harnessf("start upload: %v", err)
